@@ -55,6 +55,8 @@ def swept(maxlen):
     for f in fragments(maxlen):
         fams.append(("rep:" + repr(f), _f(f)))
         fams.append(("pal:" + repr(f), _f(f, "x", mirror_rev(f))))
+        # the same repetition in INLINE context (leading text, so that block starts such as `<!--`, `#`, `>` do not capture the line)
+        fams.append(("inl:" + repr(f), _f("", "a ", f)))
     for p, s in PAIRS:
         fams.append(("nest:%r..%r" % (p, s), _f(p, "x", s)))
         fams.append(("nestrep:%r" % (p + "x" + s,), _f(p + "x" + s + " ")))
@@ -100,6 +102,10 @@ def curated():
     add("emph-mod3", raw(lambda n: "*a**b***c " * (n // 3 + 1)))
     add("html-comment-open", _f("<!--"))
     add("html-comment-open-sp", _f("<!-- a "))
+    for nm, fr in (("html-comment-open", "<!--"), ("html-comment-open-sp", "<!-- a "), ("pi-open", "<?"), ("pi-open-sp", "<? a "), ("cdata-open", "<![CDATA["),
+                   ("cdata-open-sp", "<![CDATA[ a "), ("decl-open", "<!A "), ("tag-open", "<a "), ("tag-attr-open", "<a b=\""), ("comment-dashes", "<!--a--"),
+                   ("comment-almost", "<!-- -- "), ("cdata-almost", "<![CDATA[]] "), ("pi-almost", "<?a? ")):
+        add("inline-" + nm, _f("", "a ", fr))
     add("pi-open", _f("<?"))
     add("pi-open-sp", _f("<? a "))
     add("cdata-open", _f("<![CDATA["))
